@@ -60,3 +60,8 @@ Definition e2e_ok (mx : N) (allowed must : list bytes) (gl : label) (bodies : li
                     | None => false
                     end) bodies &&
   forallb (fun n => existsb (fun b => match parse_msg b with Some m => bytes_eqb (m_name m) n | None => false end) bodies) must.
+
+(* the same with the expected names computed by the specification (WSpec.e2e_name) from the names
+   the metrics were registered under and the exporter's global prefix *)
+Definition e2e_names_ok (mx : N) (gp : option bytes) (names must : list bytes) (gl : label) (bodies : list bytes) : bool :=
+  e2e_ok mx (map (e2e_name gp) names) (map (e2e_name gp) must) gl bodies.
